@@ -16,15 +16,19 @@ func HarnessC15Concurrent() {
 	d2 := vInt64("d2")
 	op1, n1 := vChoice("op1", 4), 0
 	if op1 < 2 {
-		n1 = vChoice("name1", 3)
+		n1 = vChoice("name1", c16Names)
 	}
 	op2, n2 := vChoice("op2", 4), 0
 	if op2 < 2 {
-		n2 = vChoice("name2", 3)
+		n2 = vChoice("name2", c16Names)
 	}
 	vFreeze()
+	vShare(tpl) // the loaded Template and every AST it holds
+	vPhase(1)
 	solo1 := c16Op(tpl, op1, n1, d1, s)
+	vPhase(2)
 	solo2 := c16Op(tpl, op2, n2, d2, s)
+	vPhase(0)
 	vCover("solo-results")
 	if vNative() {
 		for i := 0; i < 60; i++ {
@@ -38,6 +42,10 @@ func HarnessC15Concurrent() {
 		}
 		return
 	}
-	vAssert(vSharedWrites() == 0, "rendering-entry-points-do-not-store-to-shared-state")
+	// the pair is free of conflicting accesses: no location stored to by one call is read or stored to by the other
+	vAssert(vPhaseConflicts() == 0, "the-two-calls-have-no-conflicting-access-to-shared-state")
+	if vSharedWrites() == 0 {
+		vCover("engine-saw-no-store-to-shared-state")
+	}
 	vAssert(vSharedAtomicConflicts() == 0, "no-entry-point-reads-state-that-another-writes-atomically")
 }
